@@ -71,7 +71,7 @@ func abs64(a int64) int64 {
 func naluEqualIgnoringAUD(kind string, got, want [][]byte) bool {
 	var g [][]byte
 	for _, n := range got {
-		if kind == "h264" && len(n) > 0 && n[0]&0x1f == 9 {
+		if isH264(kind) && len(n) > 0 && n[0]&0x1f == 9 {
 			continue
 		}
 		g = append(g, n)
@@ -170,7 +170,7 @@ func (r *e1run) compareUnits(prop, where string, track int, got []dunit, want []
 			gd = av1StripSizes(gd)
 		}
 		okData := dataEqual(gd, w.data)
-		if !fmp4v && kind == "h264" {
+		if !fmp4v && isH264(kind) {
 			okData = naluEqualIgnoringAUD(kind, g.data, w.data)
 		}
 		if !okData {
@@ -211,8 +211,8 @@ func (r *e1run) compareUnits(prop, where string, track int, got []dunit, want []
 				return false
 			}
 		}
-		if g.ptsOff != 0 {
-			r.add(prop, "unit-pts-offset", "%s: track %d unit %d has presentation offset %d, want 0", where, track, i, g.ptsOff)
+		if g.ptsOff != w.ptsOff {
+			r.add(prop, "unit-pts-offset", "%s: track %d unit %d has presentation offset %d, want %d", where, track, i, g.ptsOff, w.ptsOff)
 			return false
 		}
 	}
@@ -330,6 +330,9 @@ func (r *e1run) opsString() string {
 		}
 		if u.NAU > 1 {
 			fmt.Fprintf(&b, "x%d", u.NAU)
+		}
+		if r.cfg.Tracks[u.Track].Kind == "h264b" {
+			fmt.Fprintf(&b, "poc%d", u.POC)
 		}
 	}
 	return b.String()
@@ -842,8 +845,8 @@ func (r *e1run) checkInit(k int) {
 			par := r.model.codecPar
 			switch c := it.Codec.(type) {
 			case *fmp4.CodecH264:
-				kindOK = t.Kind == "h264"
-				psOK = bytes.Equal(c.SPS, h264Params[par].sps) && bytes.Equal(c.PPS, h264Params[par].pps)
+				kindOK = isH264(t.Kind)
+				psOK = bytes.Equal(c.SPS, h264ParamsOf(t.Kind)[par].sps) && bytes.Equal(c.PPS, h264ParamsOf(t.Kind)[par].pps)
 			case *fmp4.CodecH265:
 				kindOK = t.Kind == "h265"
 				psOK = bytes.Equal(c.SPS, h265Params[par].sps) && bytes.Equal(c.PPS, h265Params[par].pps) && bytes.Equal(c.VPS, h265Params[par].vps)
